@@ -51,6 +51,13 @@ func DrawXferOpt(t *Tape, tier string) XferOpt {
 	}
 	o.CfgA = DrawSessCfg(t, cs, over)
 	o.CfgB = DrawSessCfg(t, cs, over)
+	// SetDUP, rarely (a stream of its own: older tapes keep their meaning)
+	if t.Chance("cfg-dup", 60) {
+		o.CfgA.Dup = 1 + t.Choose("cfg-dup", 2)
+		if t.Chance("cfg-dup", 500) {
+			o.CfgB.Dup = 1 + t.Choose("cfg-dup", 2)
+		}
+	}
 	mssOf := func(c SessCfg) int {
 		m := 1400
 		if c.MTU != 0 {
